@@ -3,6 +3,7 @@ package rules
 import (
 	"go/token"
 	"go/types"
+	"strings"
 
 	"golang.org/x/tools/go/ssa"
 
@@ -277,4 +278,153 @@ func unitOf(c *core.Ctx, root *ssa.Function) []*ssa.Function {
 		}
 	}
 	return out
+}
+
+// forwardedCall: the return forwards the error result of a call to a function
+// with a body (return h(x)); nil otherwise.
+func forwardedCall(r *ssa.Return) *ssa.Call {
+	if len(r.Results) == 0 {
+		return nil
+	}
+	last := core.Canon(core.RetVal(r, len(r.Results)-1))
+	if !core.IsErrorType(r.Results[len(r.Results)-1].Type()) {
+		return nil
+	}
+	call, _ := core.CallResult(last)
+	if call == nil {
+		return nil
+	}
+	if f := call.Call.StaticCallee(); f == nil || len(f.Blocks) == 0 {
+		return nil
+	}
+	return call
+}
+
+// successGuarded: every success exit of fn is behind a branch establishing m.
+// A success exit is a return with a nil error, or a return forwarding the
+// results of a helper of the repository: then either the call itself is
+// behind the guard, or every success exit of the helper is.  The matcher must
+// not be tied to values of fn (it is re-applied inside the helper).  n counts
+// the success exits seen.
+func successGuarded(c *core.Ctx, fn *ssa.Function, m core.EdgeMatcher, depth int) (ok bool, n int) {
+	ok = true
+	for _, ret := range core.Returns(fn) {
+		if successReturn(ret) {
+			n++
+			if !core.Guarded(fn, ret, m) {
+				ok = false
+			}
+			continue
+		}
+		call := forwardedCall(ret)
+		if call == nil || depth > 2 {
+			continue
+		}
+		h := call.Call.StaticCallee()
+		if !inRepo(h) {
+			continue // not a function of the repository: its error is an error
+		}
+		if core.Guarded(fn, call, m) {
+			n++
+			continue
+		}
+		hok, hn := successGuarded(c, h, m, depth+1)
+		n += hn
+		if !hok {
+			ok = false
+		}
+	}
+	return ok, n
+}
+
+// inRepo: fn is a function of the repository (not of a dependency).
+func inRepo(fn *ssa.Function) bool {
+	if fn == nil {
+		return false
+	}
+	if fn.Pkg == nil {
+		if fn.Parent() != nil {
+			return inRepo(fn.Parent())
+		}
+		return false
+	}
+	return strings.HasPrefix(fn.Pkg.Pkg.Path(), core.Module)
+}
+
+// fieldInits lists the values fn stores into field fld: direct stores in fn,
+// and arguments of calls to constructors of the repository that store the
+// corresponding parameter into fld.
+func fieldInits(fn *ssa.Function, fld *types.Var) []ssa.Value {
+	var out []ssa.Value
+	if fn == nil || fld == nil {
+		return out
+	}
+	for _, b := range fn.Blocks {
+		for _, in := range b.Instrs {
+			switch x := in.(type) {
+			case *ssa.Store:
+				if isFieldOf(x.Addr, fld) {
+					out = append(out, x.Val)
+				}
+			case *ssa.Call:
+				g := x.Call.StaticCallee()
+				if g == nil || g == fn || !inRepo(g) {
+					continue
+				}
+				for _, gb := range g.Blocks {
+					for _, gin := range gb.Instrs {
+						st, ok := gin.(*ssa.Store)
+						if !ok || !isFieldOf(st.Addr, fld) {
+							continue
+						}
+						if p, ok := core.Canon(st.Val).(*ssa.Parameter); ok {
+							for i, gp := range g.Params {
+								if gp == p && i < len(x.Call.Args) {
+									out = append(out, x.Call.Args[i])
+								}
+							}
+						}
+					}
+				}
+			}
+		}
+	}
+	return out
+}
+
+// exclusiveUnit: root and the private helpers that are called only from
+// within the unit (never from elsewhere, never with `go`): code that runs
+// exactly when, and as part of, root.
+func exclusiveUnit(c *core.Ctx, root *ssa.Function) map[*ssa.Function]bool {
+	in := map[*ssa.Function]bool{}
+	for _, f := range unitOf(c, root) {
+		in[f] = true
+	}
+	sites, _ := c.CallSites()
+	owner := func(f *ssa.Function) *ssa.Function {
+		for f != nil && f.Parent() != nil {
+			f = f.Parent()
+		}
+		return f
+	}
+	for changed := true; changed; {
+		changed = false
+		for f := range in {
+			if f == root {
+				continue
+			}
+			for _, site := range sites[f] {
+				if c.IsTestFile(site.Parent()) {
+					continue
+				}
+				_, isGo := site.(*ssa.Go)
+				if isGo || !in[owner(site.Parent())] {
+					delete(in, f)
+					changed = true
+					break
+				}
+			}
+		}
+	}
+	return in
 }
